@@ -5,9 +5,10 @@ CONSTANTS
   ByteStrings <- BytesQuick
   NumSeqs <- NumsQuick
   NewObjs <- MCNewObjs
+  InheritBound <- MCInheritBound
   MaxDepth = 4
   Starts <- StartsContent2
-  Allowed = {}
+  Allowed = {"resources.shadow.deep", "fresh.aboveMax", "maxid.setObject", "counts.indirect", "delete.bookmark"}
   Emit = TRUE
   EmitMod = 2000
   EmitModV = 200
